@@ -19,6 +19,7 @@ package internal
 //@   names action
 //@   opt callback action
 //@   cbassume keyof(arr(cb_arg0)) == keysecret(this)
+//@   cbassume plain(arr(cb_arg0))
 //@   ensures cb_called ==> result == cb_ret0
 //@   ensures !cb_called ==> result == nil && err != nil
 //@   ensures cb_called ==> (err == cb_ret1 || err != nil)
